@@ -1125,6 +1125,283 @@ theorem definite_parent (m : Mode) (f : Nat) (d : Bytes) (l : Nat) :
 theorem indefinite_parent (m : Mode) (f : Nat) (g : G0) (hf : g.frames = []) :
     Rel0 (runG0 (readAll f ⟨.indefinite, m, 0⟩) g) (specI m f g) := (refines f).2.1 m 0 g hf
 
+/-! ### switching the mode at a nested level -/
+
+/-- the closure `|tag, content| { if let Constructed(c) = content { c.set_mode(m') }; generic(content) }`:
+    a generic read that reads the content of a constructed value in mode `m'` -/
+def readValueAs (m' : Mode) (f : Nat) : Tag → Content → Prog (Tree × Content)
+  | tag, .prim m => do
+    let c ← Prim.takeAll
+    pure (.prim (identOf tag false) c, .prim m)
+  | tag, .cons c => do
+    let (kids, c') ← readAll f { c with mode := m' }
+    pure (.cons (identOf tag true) (c.state == .indefinite) kids, .cons c')
+
+/-- one value whose header follows the rules of `m` and whose content (if constructed) those of `m'` -/
+def parseSwitched (m m' : M) (f : Nat) (bs : Bytes) : Option (Tree × Bytes) :=
+  match readIdent bs with
+  | none => none
+  | some (id, k) =>
+    if isEocIdent id then none else
+    match readLen m.isBer (bs.drop k) with
+    | none => none
+    | some (some n, kl) =>
+      let body := bs.drop (k + kl)
+      if body.length < n then none
+      else if !id.constructed then some (.prim id (body.take n), body.drop n)
+      else if m == .cer then none
+      else match parseAll m' f (body.take n) with
+        | some kids => some (.cons id false kids, body.drop n)
+        | none => none
+    | some (none, kl) =>
+      if !id.constructed || m == .der then none
+      else match parseUntilEoc m' f (bs.drop (k + kl)) with
+        | some (kids, rest) => some (.cons id true kids, rest)
+        | none => none
+
+/-- without a switch this is the grammar itself -/
+theorem parseSwitched_same (m : M) (f : Nat) (bs : Bytes) : parseSwitched m m f bs = parseValue m (f + 1) bs := by
+  simp only [parseSwitched, parseValue]
+  rfl
+
+def bodySpecSw (c : Cons) (m' : Mode) (f : Nat) (id : Ident) (len? : Option Nat) (g2 : G0) :
+    Option ((Option Tree × Cons) × G0) :=
+  match len? with
+  | some n =>
+    if g2.view.length < n then none
+    else if !id.constructed then some ((some (.prim id (g2.view.take n)), c), g2.adv n)
+    else if toM c.mode == .cer then none
+    else (parseAll (toM m') f (g2.view.take n)).map fun kids => ((some (.cons id false kids), c), g2.adv n)
+  | none =>
+    if !id.constructed || toM c.mode == .der then none
+    else (parseUntilEoc (toM m') f g2.view).map fun p =>
+      ((some (.cons id true p.1), c), g2.adv (g2.view.length - p.2.length))
+
+def specVsw (m' : Mode) (c : Cons) (f : Nat) (g : G0) : Option ((Option Tree × Cons) × G0) :=
+  (parseSwitched (toM c.mode) (toM m') f g.view).map fun p => ((some p.1, c), g.adv (g.view.length - p.2.length))
+
+def valuePartAs (m' : Mode) (c : Cons) (f : Nat) (g : G0) : Res ((Option Tree × Cons) × G0) :=
+  match headerF c.mode g with
+  | none => .error .content
+  | some ((id, len?), g2) => bodyF c (readValueAs m' f) g.data.length g2 id len?
+
+def VSsw (m' : Mode) (f : Nat) : Prop := ∀ c g, g.frames = [] →
+  (c.state = .indefinite → ∀ id k, readIdent g.view = some (id, k) → isEocIdent id = false) →
+  Rel0 (valuePartAs m' c f g) (specVsw m' c f g)
+
+theorem body_rel_sw (m' : Mode) (f : Nat) (hD : DS f) (hI : IS f) (c : Cons) (hd : Nat) (g2 : G0) (hf2 : g2.frames = [])
+    (id : Ident) (hc : id.cls ≤ 3) (hn : id.num ≤ 0x1fffff) (hne : isEocIdent id = false) (len? : Option Nat) :
+    Rel0 (bodyF c (readValueAs m' f) hd g2 id len?) (bodySpecSw c m' f id len? g2) := by
+  have hg2 : g2 = St g2.data g2.limit := by
+    cases g2 with
+    | mk d l fr => simp at hf2; subst hf2; rfl
+  have hid : ∀ b, identOf (C12.tagOf id.cls id.num) b = ⟨id.cls, b, id.num⟩ := identOf_tagOf id hc hn
+  unfold bodyF bodySpecSw
+  simp only [hne, Bool.false_eq_true, if_false]
+  cases len? with
+  | some n =>
+    simp only
+    have hvl := view_len g2
+    -- the limit check
+    by_cases hover : (match g2.limit with | some l => decide (n > l) | none => false) = true
+    · have : g2.view.length < n := by
+        cases hl : g2.limit with
+        | none => simp [hl] at hover
+        | some l => simp [hl] at hover hvl; omega
+      simp [hover, this, Rel0]
+    · simp only [hover, Bool.false_eq_true, if_false]
+      have hnl : ∀ l, g2.limit = some l → n ≤ l := by
+        intro l hl; simp [hl] at hover; omega
+      -- view length vs data length
+      have hlen : (g2.view.length < n) ↔ (g2.data.length < n) := by
+        cases hl : g2.limit with
+        | none => simp [hl] at hvl; omega
+        | some l => have := hnl l hl; simp [hl] at hvl; omega
+      have htake : g2.view.take n = g2.data.take n := by
+        cases hl : g2.limit with
+        | none => simp [G0.view, hl]
+        | some l =>
+          have := hnl l hl
+          simp only [G0.view, hl, List.take_take]; congr 1; omega
+      by_cases hcons : id.constructed = true
+      · -- constructed
+        simp only [hcons, Bool.true_and, Bool.not_true, Bool.false_eq_true, if_false, if_true, toM_cer]
+        by_cases hcer : (c.mode == .cer) = true
+        · simp only [hcer, if_true]
+          by_cases hs : g2.view.length < n <;> simp [hs, Rel0]
+        · simp only [hcer, Bool.false_eq_true, if_false]
+          -- the closure: descend
+          have hrv : ∀ g, runG0 (readValueAs m' f (C12.tagOf id.cls id.num) (.cons ⟨.definite, c.mode, 0⟩)) g =
+              match runG0 (readAll f ⟨.definite, m', 0⟩) g with
+              | .ok ((kids, c'), g') => .ok ((.cons ⟨id.cls, true, id.num⟩ false kids, .cons c'), g')
+              | .error e => .error e := by
+            intro g
+            simp only [readValueAs, runG0_bind, hid]
+            cases runG0 (readAll f ⟨.definite, m', 0⟩) g with
+            | error e => rfl
+            | ok r => obtain ⟨⟨kids, c'⟩, g'⟩ := r; rfl
+          rw [hrv]
+          have hd := hD m' 0 g2.data n
+          unfold specD at hd
+          by_cases hs : g2.data.length < n
+          · have hs' : g2.view.length < n := hlen.mpr hs
+            have : ¬ n ≤ g2.data.length := by omega
+            simp only [this, if_false] at hd
+            rcases (rel0_none _).mp hd with he | he <;> simp [he, hs', Rel0]
+          · have hs' : ¬ g2.view.length < n := fun h => hs (hlen.mp h)
+            have : n ≤ g2.data.length := by omega
+            simp only [this, if_true] at hd
+            simp only [hs', if_false, htake]
+            cases hp : parseAll (toM m') f (g2.data.take n) with
+            | none =>
+              rw [hp] at hd
+              rcases (rel0_none _).mp hd with he | he <;> simp [he, Rel0]
+            | some kids =>
+              rw [hp] at hd
+              simp only [Option.map] at hd
+              rw [rel0_some] at hd
+              simp only [hd, Content.exhausted, Cons.exhausted, run_limitedExhausted, if_true, Option.map, Rel0]
+              have : id = ⟨id.cls, true, id.num⟩ := ident_eta id true hcons
+              rw [adv_eq_St]
+              simp only [Prod.mk.injEq]
+              rw [← this]
+              simp
+              cases g2.limit <;> rfl
+      · -- primitive
+        simp only [hcons, Bool.false_and, Bool.not_false, Bool.false_eq_true, if_false, if_true]
+        have hrv : runG0 (readValueAs m' f (C12.tagOf id.cls id.num) (.prim c.mode)) (St g2.data (some n)) =
+            if n ≤ g2.data.length then
+              .ok ((.prim ⟨id.cls, false, id.num⟩ (g2.data.take n), .prim c.mode), St (g2.data.drop n) (some 0))
+            else .error .content := by
+          simp only [readValueAs, runG0_bind, run_takeAll, hid]
+          by_cases h : n ≤ g2.data.length <;> simp [h]
+        rw [hrv]
+        by_cases hs : g2.data.length < n
+        · have hs' : g2.view.length < n := hlen.mpr hs
+          have : ¬ n ≤ g2.data.length := by omega
+          simp [this, hs', Rel0]
+        · have hs' : ¬ g2.view.length < n := fun h => hs (hlen.mp h)
+          have : n ≤ g2.data.length := by omega
+          simp only [this, if_true, hs', if_false, Content.exhausted, run_limitedExhausted, htake, Rel0]
+          have hidp : id = ⟨id.cls, false, id.num⟩ := ident_eta id false (by simpa using hcons)
+          rw [adv_eq_St]
+          simp only [Prod.mk.injEq]
+          rw [← hidp]
+          simp
+  | none =>
+    simp only [toM_der]
+    by_cases h1 : (!id.constructed || c.mode == .der) = true
+    · simp [h1, Rel0]
+    · simp only [h1, Bool.false_eq_true, if_false]
+      have hcons : id.constructed = true := by
+        cases hc' : id.constructed <;> simp [hc'] at h1 ⊢
+      have hrv : ∀ g, runG0 (readValueAs m' f (C12.tagOf id.cls id.num) (.cons ⟨.indefinite, c.mode, 0⟩)) g =
+          match runG0 (readAll f ⟨.indefinite, m', 0⟩) g with
+          | .ok ((kids, c'), g') => .ok ((.cons ⟨id.cls, true, id.num⟩ true kids, .cons c'), g')
+          | .error e => .error e := by
+        intro g
+        simp only [readValueAs, runG0_bind, hid]
+        cases runG0 (readAll f ⟨.indefinite, m', 0⟩) g with
+        | error e => rfl
+        | ok r => obtain ⟨⟨kids, c'⟩, g'⟩ := r; rfl
+      rw [hrv]
+      have hi := hI m' 0 g2 hf2
+      unfold specI at hi
+      cases hp : parseUntilEoc (toM m') f g2.view with
+      | none =>
+        rw [hp] at hi
+        rcases (rel0_none _).mp hi with he | he <;> simp [he, Rel0]
+      | some r =>
+        obtain ⟨kids, rest⟩ := r
+        rw [hp] at hi
+        simp only [Option.map] at hi
+        rw [rel0_some] at hi
+        simp only [hi, Content.exhausted, Cons.exhausted, runG0_pure, Option.map, Rel0]
+        have : id = ⟨id.cls, true, id.num⟩ := ident_eta id true hcons
+        rw [← this]
+
+
+
+theorem vs_sw (m' : Mode) (f : Nat) (hD : DS f) (hI : IS f) : VSsw m' f := by
+  intro c g hf hEoc
+  unfold valuePartAs specVsw headerF
+  simp only [parseSwitched]
+  cases hri : readIdent g.view with
+  | none => simp [Rel0]
+  | some r =>
+    obtain ⟨id, k⟩ := r
+    obtain ⟨hc, hn, hk1, hk, _⟩ := C12.readIdent_bounds _ _ _ hri
+    simp only
+    have hv1 : (g.adv k).view = g.view.drop k := G0.adv_view g k hk
+    rw [hv1, toM_isBer]
+    cases hrl : readLen c.mode.isBer (g.view.drop k) with
+    | none => by_cases he : isEocIdent id = true <;> simp [he, Rel0]
+    | some r2 =>
+      obtain ⟨len?, kl⟩ := r2
+      obtain ⟨hkl1, hkl⟩ := readLen_bound _ _ _ _ hrl
+      simp only [List.length_drop] at hkl
+      by_cases he : isEocIdent id = true
+      · simp only [he, if_true, Option.map]
+        unfold bodyF
+        simp only [he, if_true]
+        by_cases hst : c.state = .indefinite
+        · have := hEoc hst id k hri
+          rw [he] at this; cases this
+        · simp [hst, Rel0]
+      · have he' : isEocIdent id = false := by simpa using he
+        simp only [he', Bool.false_eq_true, if_false]
+        have hb := body_rel_sw m' f hD hI c g.data.length ((g.adv k).adv kl) (adv_frames _ _) id hc hn he' len?
+        have hkv : kl ≤ (g.adv k).view.length := by rw [hv1, List.length_drop]; exact hkl
+        have hv2 : ((g.adv k).adv kl).view = g.view.drop (k + kl) := by
+          rw [G0.adv_view _ _ hkv, hv1, List.drop_drop]
+        have hvl2 : ((g.adv k).adv kl).view.length = g.view.length - (k + kl) := by
+          rw [hv2, List.length_drop]
+        have hsum : k + kl ≤ g.view.length := by omega
+        refine cast (congrArg (Rel0 _) ?_) hb
+        unfold bodySpecSw
+        rw [hv2]
+        cases len? with
+        | some n =>
+          simp only [List.length_drop]
+          by_cases h1 : g.view.length - (k + kl) < n
+          · simp [h1]
+          · simp only [h1, if_false]
+            have hadv : g.adv (g.view.length - (g.view.length - (k + kl) - n)) = ((g.adv k).adv kl).adv n := by
+              rw [G0.adv_adv g k kl]
+              exact adv_back g (k + kl) n hsum (by omega)
+            by_cases h2 : id.constructed = true
+            · simp only [h2, Bool.not_true, Bool.false_eq_true, if_false]
+              by_cases h3 : (toM c.mode == M.cer) = true
+              · simp [h3]
+              · simp only [h3, Bool.false_eq_true, if_false]
+                cases parseAll (toM m') f (List.take n (List.drop (k + kl) g.view)) with
+                | none => rfl
+                | some kids => simp only [Option.map, List.length_drop, hadv]
+            · simp only [h2, Bool.not_false, if_true, Option.map, List.length_drop, hadv]
+        | none =>
+          by_cases h1 : (!id.constructed || toM c.mode == M.der) = true
+          · simp [h1]
+          · simp only [h1, Bool.false_eq_true, if_false]
+            cases hp : parseUntilEoc (toM m') f (List.drop (k + kl) g.view) with
+            | none => rfl
+            | some r3 =>
+              obtain ⟨kids, rest⟩ := r3
+              obtain ⟨j, hj, hrest⟩ := (suffix_lemma (toM m') f).2 _ _ _ hp
+              simp only [List.length_drop] at hj
+              simp only [Option.map, hrest, List.length_drop]
+              have e1 : g.view.length - (k + kl) - (g.view.length - (k + kl) - j) = j := by omega
+              rw [e1, G0.adv_adv g k kl, adv_back g (k + kl) j hsum hj]
+
+
+
+
+theorem pnvF_valueAs (m' : Mode) (c : Cons) (f : Nat) (g : G0)
+    (h1 : c.state ≠ .done) (h2 : ¬ (c.state = .definite ∧ g.limit = none))
+    (h3 : ¬ (c.state = .definite ∧ g.limit = some 0)) (h4 : ¬ (c.state = .unbounded ∧ g.view = [])) :
+    pnvF c (readValueAs m' f) g = valuePartAs m' c f g := by
+  unfold pnvF valuePartAs
+  simp only [h1, h2, h3, h4, if_false]
+
 /-! non-vacuity: concrete inputs on both sides of the relation -/
 example : parseAll .ber 5 [0x30, 0x80, 0x04, 0x01, 0xaa, 0x00, 0x00, 0x02, 0x01, 0x05] =
     some [.cons ⟨0, true, 16⟩ true [.prim ⟨0, false, 4⟩ [0xaa]], .prim ⟨0, false, 2⟩ [0x05]] := by rfl
